@@ -140,7 +140,7 @@ def rule_validate_operation(ctx):
     b = ctx.body(VALIDATE_OP)
     leaves = table(ctx.prog, b, lambda it: [Sym("op")],
                    {"pure": (VALIDATE_HDR, "p2panda_core::operation::Body::hash",
-                             "p2panda_core::operation::Body::size")})
+                             "p2panda_core::operation::Body::size"), "split_result_return": True})
     ctx.evaluations += len(leaves)
     n_ok = 0
     for lf in leaves:
@@ -345,8 +345,9 @@ def rule_delivery(ctx):
             and b.root == "p2panda::processor::pipeline::Pipeline::new"
             and b.arg_count == 2 and "IngestError" in b.locals[2]["ty"]]
     ctx.floor("C01.7", "ingest-result mapping closure in Pipeline::new", len(clos), 1)
+    event_methods = tuple(lz.path for lz in prog.lazy if lz.path.startswith("p2panda::processor::event::Event::"))
     for b in clos:
-        leaves = table(prog, b, lambda it: [Sym("env"), Sym("result")], {})
+        leaves = table(prog, b, lambda it: [Sym("env"), Sym("result")], {"inline": event_methods})
         for lf in leaves:
             d = lf.discr("result")
             ev = lf.ret
